@@ -65,8 +65,10 @@ class RealWorld:
 
     def quiesce(self, grace=3.0):
         """Wait (bounded) for the threads this scenario created to finish."""
+        # (ten times the grace before threads that are still there count as
+        # left behind: the limit is wall clock and the machine may be busy)
         t0 = time.monotonic()
-        while time.monotonic() - t0 < grace:
+        while time.monotonic() - t0 < 10 * grace:
             left = [t for t in threading.enumerate()
                     if t not in self.before and t.is_alive()
                     and not t.name.startswith('verif-')]
